@@ -3,9 +3,10 @@
 # Applies a seeded change to a scratch copy of /repo (outside /repo and /verif), runs one check against it through
 # PB_SRC, removes the copy.  Equivalent to `git -C /repo apply` + check + `git -C /repo checkout -- .` but lets
 # several seeds be tried concurrently.  Evidence of such runs goes to the scratch copy, never to /verif/evidence.
+V="$(cd "$(dirname "$0")/.." && pwd)"
 P="$(readlink -f "$1")"; ID="$2"; TIER="${3:-quick}"
 S=$(mktemp -d /tmp/pbseed.XXXXXX)
 git -C /repo archive HEAD | tar -x -C "$S" || exit 9
 ( cd "$S" && git init -q . && git apply "$P" ) || { echo "patch does not apply"; rm -rf "$S"; exit 9; }
-cd /verif && PBSYM_EVIDENCE_DIR="$S/.evidence" PBSYM_REPLAY_DIR=/verif/replays/seeds PB_SRC="$S" ./check "$ID" --tier "$TIER" 2>&1 | tail -${TAIL:-6}
+cd "$V" && PBSYM_EVIDENCE_DIR="$S/.evidence" PBSYM_REPLAY_DIR="$V/replays/seeds" PB_SRC="$S" ./check "$ID" --tier "$TIER" 2>&1 | tail -${TAIL:-6}
 rm -rf "$S"
